@@ -55,13 +55,13 @@ fn pubel() -> impl Strategy<Value = PubEl> {
 }
 
 fn sop() -> impl Strategy<Value = SOp> {
-    // signer: 0,1 child identities, 2,3 publisher identities, 4 unregistered
+    // signer: 0,1 child identities, 2,3 publisher identities, 4 unregistered, 5,6 the identities of the same-named children of the other CA
     let flip = prop_oneof![3 => Just(None), 1 => any::<u32>().prop_map(Some)];
     prop_oneof![
-        10 => (0u8..5, prop_oneof![8 => 0u8..2, 1 => Just(2u8)], prop_oneof![8 => Just(0u8), 1 => Just(1u8)], pay6492(), flip.clone())
+        10 => (0u8..7, prop_oneof![8 => 0u8..2, 1 => Just(2u8)], prop_oneof![8 => Just(0u8), 2 => Just(1u8), 1 => Just(2u8)], pay6492(), flip.clone())
             .prop_map(|(signer, sender, recipient, pay, flip)| SOp::Req6492 { signer, sender, recipient, pay, flip }),
         // the right signer for the sender, so that accepted requests are frequent
-        8 => (0u8..2, pay6492(), flip.clone()).prop_map(|(s, pay, flip)| SOp::Req6492 { signer: 100 + s, sender: s, recipient: 0, pay, flip }),
+        8 => (0u8..2, pay6492(), flip.clone(), prop_oneof![6 => Just(0u8), 1 => Just(1u8)]).prop_map(|(s, pay, flip, recipient)| SOp::Req6492 { signer: 100 + s, sender: s, recipient, pay, flip }),
         8 => (0u8..5, prop_oneof![8 => 0u8..2, 1 => Just(2u8)], prop_oneof![1 => Just(Pay8181::List), 4 => vec(pubel(), 1..4).prop_map(Pay8181::Delta)], flip.clone())
             .prop_map(|(signer, to, pay, flip)| SOp::Req8181 { signer, to, pay, flip }),
         8 => (0u8..2, prop_oneof![1 => Just(Pay8181::List), 4 => vec(pubel(), 1..4).prop_map(Pay8181::Delta)], flip).prop_map(|(p, pay, flip)| {
@@ -152,7 +152,15 @@ impl Run {
         };
         let registered = self.sw.child_id.get(sender_name).copied();
         let signer_id = if signer >= 100 { registered.unwrap_or(4) } else { signer as usize % sigw::N_IDS };
-        let recipient_name = if recipient == 0 { PARENT } else { "someone-else" };
+        // 1: another CA of this instance that has a child of the same name (with another identity key)
+        let recipient_name = match recipient {
+            0 => PARENT,
+            1 => sigw::OTHER_PARENT,
+            _ => "someone-else",
+        };
+        if recipient == 1 {
+            self.sw.hit("addressed_to_another_ca_with_a_child_of_that_name");
+        }
         let msg = self.sw.msg6492(sender_name, recipient_name, pay)?;
         let valid = self.sw.sign6492(msg.clone(), signer_id)?;
         let authorised = registered == Some(signer_id);
@@ -244,6 +252,11 @@ impl Run {
         }
         if before.publishers != after.publishers {
             return Ok(Err(bad("c12-other-party-affected", "rfc6492", "a provisioning request changed publisher state".into())));
+        }
+        // the request was delivered to `p` and authenticated with the key `p` has on record for the sender:
+        // whatever the message names as recipient, no other CA acts on it
+        if before.other_ca != after.other_ca {
+            return Ok(Err(bad("c12-other-ca-affected", "rfc6492", format!("request {pay:?} by {sender_name} of {PARENT} (recipient in the message: {recipient_name}) changed CA {}: {:?} -> {:?}", sigw::OTHER_PARENT, before.other_ca, after.other_ca))));
         }
         match (pay, reply.payload()) {
             (_, Payload::ErrorResponse(_)) => {
